@@ -9,9 +9,20 @@ fault point (deviation bound 1) and, in the thorough tier, per pair {repository 
 Interception is done inside the harness process by shadowing the names `open` and `os` in the module namespace of
 debian.debian_support (no source hook); tempfile.tempdir points at a harness-owned directory so that a leaked
 download temp file is visible.
+
+Routes ("the other way in"), on a sub-family of the histories, every start state, judged by the same model: the call made
+with verbose=True (output captured), through the deprecated alias updateFile with keyword arguments, the full download
+called directly (download_file / downloadFile); the index laid out differently (unknown extra fields, the three fields in
+another order, two paragraphs); the repository served over HTTP by a loopback server instead of file://; and a second
+call after every successful one (the local file is current and has to stay so, nothing left behind).
 """
 import builtins
+import contextlib
+import functools
+import io
 import re
+import threading
+import warnings
 import gzip
 import hashlib
 import itertools
@@ -26,7 +37,9 @@ ID = "C19"
 LEVEL = "fault_enumeration"
 RULE = ("cases = (history of published versions, local start state, fault set) with fault points discovered by a "
         "recording dry run; every case is executed on the real update_file against a file:// repository in a fresh "
-        "directory; non-trivial = distinct cases in which a fault actually fired or the patch chain was used")
+        "directory; non-trivial = distinct cases in which a fault actually fired or the patch chain was used; routes: "
+        "the same cases with another entry point / index layout / transport, one trace per call made (a second call "
+        "after a success counts as a trace of its own)")
 BUDGET = {"quick": 240, "thorough": 3000}
 
 
@@ -35,6 +48,20 @@ def bounds(tier):
             "lines_per_version": "<= 2 over {a,b,c}" if tier == "quick" else "<= 3 (<= 2 for 3-4 version histories)",
             "start_states": "each vi, current, foreign, absent",
             "fault_bound": 1 if tier == "quick" else 2,
+            "routes": {"histories": "%d: all 2- and 3-version histories over the first three line lists, the long file, the "
+                                    "line-separator and the terminator look-alike histories%s"
+                                    % (len(route_histories(tier, 0)), "" if tier == "quick" else
+                                       ", all 2-version histories over the first seven lists, the 4-version ones over the first three"),
+                       "start_states": "each vi, current, foreign, absent",
+                       "entries": "update_file(remote, local, True) and updateFile(remote=, local=, verbose=False): every "
+                                  "repository fault, and every file-system fault point of the fault-free repository; "
+                                  "download_file and downloadFile(remote=, local=) called directly from v0 / foreign / absent: "
+                                  "no fault, full file missing, every file-system fault point",
+                       "index_layouts": "%r x repository faults {none, wrongcurrent, garble 0, idx-unparsable-tail}" % LAYOUTS[1:],
+                       "transport": "http:// (loopback ThreadingHTTPServer) for %s x {none, noidx, nofull}"
+                                    % ("the 2-version and the special histories" if tier == "quick" else "every route history"),
+                       "second_call": "after every successful call of the routes family that had no repository fault or an "
+                                      "unusable index: the same call again"},
             "hash": "SHA1 (SHA256 configuration explored only when the interpreter provides _sha256)"}
 
 
@@ -42,7 +69,16 @@ def assumptions():
     return ["an index that parses but lacks a field (semantically short) is checked for safety only",
             "a missing patch / missing full file is checked for safety only",
             "unlink failures are not injected (no clean-up can be promised then)",
-            "file:// transport; urllib and gzip are trusted", "python 3.12 has no _sha256: the module's own "
+            "file:// transport (and http:// from a loopback server in the routes family); urllib, http.server and gzip are "
+            "trusted", "download_file called directly is the statement's 'full download' on its own: it has to leave the "
+            "published content in the local file and return it, or raise with the local file as it was and nothing left "
+            "behind; a missing full file is checked for safety only",
+            "index layouts: fields the function does not know are ignored, the order of the fields and a split into "
+            "several paragraphs do not matter (the function loops over all paragraphs and fields); an index that carries "
+            "SHA256 fields as well cannot be used on this interpreter (no _sha256) and is not generated",
+            "left out: a pathlib.Path as local (documented as str; local + '.new' raises TypeError, local intact), a stale "
+            "local.new present before the call (the up-to-date path does not touch it; the statement speaks of files the "
+            "call creates)", "python 3.12 has no _sha256: the module's own "
             "new_sha256 raises NotImplementedError by design, so SHA256 indexes are skipped here"]
 
 
@@ -61,7 +97,24 @@ def gz(path, text):
         f.write(text)
 
 
-def mkrepo(d, versions, rfault, algo):
+LAYOUTS = ["plain", "extra-fields", "reordered", "two-paragraphs"]
+
+
+def layout_index(layout, f_cur, f_hist, f_pat):
+    """the same index information in another legitimate arrangement of the control-file paragraph(s)"""
+    if layout == "extra-fields":
+        # what real archives publish next to the three fields (ignored by update_file)
+        return ("Canonical-Path: dists/sid/main/binary-amd64/Packages\n" + f_cur + f_hist +
+                "X-Unmerged-SHA1-History:\n 0 0 none\n" + f_pat + "X-Unmerged-SHA1-Patches:\n 0 0 none\n" +
+                "X-Patch-Precedence: merged\n")
+    if layout == "reordered":
+        return f_pat + f_hist + f_cur
+    if layout == "two-paragraphs":
+        return f_cur + "\n" + f_hist + f_pat
+    return f_cur + f_hist + f_pat
+
+
+def mkrepo(d, versions, rfault, algo, layout="plain"):
     H = sha1 if algo == "SHA1" else sha256
     cur = versions[-1]
     if rfault != ("nofull",):
@@ -94,7 +147,7 @@ def mkrepo(d, versions, rfault, algo):
     f_cur = "%s-Current: %s %d\n" % (algo, curhash, len("".join(cur)))
     f_hist = "%s-History:\n" % algo + "".join(hist)
     f_pat = "%s-Patches:\n" % algo + "".join(pat)
-    idx = f_cur + f_hist + f_pat
+    idx = layout_index(layout, f_cur, f_hist, f_pat)
     if rfault == ("idx-unparsable",):
         idx = "!!! not a field\n" + idx
     if rfault == ("idx-unparsable-tail",):
@@ -178,18 +231,70 @@ class OsProxy(object):
 SCRATCH = "/dev/shm" if os.path.isdir("/dev/shm") and os.access("/dev/shm", os.W_OK) else None
 
 
+_HTTP = {}
+
+
+def http_base():
+    """a loopback HTTP server (one per worker process, started on first use) that serves the scratch root"""
+    import http.server
+    if _HTTP.get("pid") != os.getpid():
+        root = SCRATCH or tempfile.gettempdir()
+
+        class Quiet(http.server.SimpleHTTPRequestHandler):
+            def log_message(self, *a):
+                pass
+        srv = http.server.ThreadingHTTPServer(("127.0.0.1", 0), functools.partial(Quiet, directory=root))
+        srv.daemon_threads = True
+        threading.Thread(target=srv.serve_forever, daemon=True).start()
+        _HTTP.update(pid=os.getpid(), srv=srv, root=root, base="http://127.0.0.1:%d" % srv.server_address[1])
+    return _HTTP["base"], _HTTP["root"]
+
+
 class Repo(object):
     """a published repository in a scratch directory (update_file never writes to it)"""
 
-    def __init__(self, versions, rfault, algo):
+    def __init__(self, versions, rfault, algo, layout="plain"):
         self.dir = tempfile.mkdtemp(prefix="verif-c19r-", dir=SCRATCH)
-        mkrepo(self.dir, versions, rfault, algo)
+        mkrepo(self.dir, versions, rfault, algo, layout)
+
+    def url(self, transport):
+        if transport == "http":
+            base, root = http_base()
+            return base + "/" + os.path.relpath(os.path.join(self.dir, "Packages"), root)
+        return "file://" + os.path.join(self.dir, "Packages")
 
     def close(self):
         shutil.rmtree(self.dir, ignore_errors=True)
 
 
-def execute(versions, start, rfault, fsfail, algo="SHA1", repo_obj=None):
+ENTRIES = ["update_file", "verbose", "alias", "download_file", "downloadFile"]
+
+
+def call_entry(ds, entry, url, local):
+    """the same update through another public entry point"""
+    if entry == "update_file":
+        return ds.update_file(url, local)
+    if entry == "verbose":
+        with contextlib.redirect_stdout(io.StringIO()):
+            return ds.update_file(url, local, True)
+    with warnings.catch_warnings():
+        warnings.simplefilter("ignore")
+        if entry == "alias":
+            return ds.updateFile(remote=url, local=local, verbose=False)
+        if entry == "download_file":
+            return ds.download_file(url, local)
+        if entry == "downloadFile":
+            return ds.downloadFile(remote=url, local=local)
+    raise KeyError(entry)
+
+
+def read_local(path):
+    with open(path, encoding="utf-8", newline="") as f:      # no newline translation: the bytes that are there
+        return f.read()
+
+
+def execute(versions, start, rfault, fsfail, algo="SHA1", repo_obj=None, entry="update_file", layout="plain",
+            transport="file", again=False):
     """-> dict(exc, result, before, after, leftovers, tmp_leftovers, env)"""
     import debian.debian_support as ds
     d = tempfile.mkdtemp(prefix="verif-c19-", dir=SCRATCH)
@@ -202,14 +307,14 @@ def execute(versions, start, rfault, fsfail, algo="SHA1", repo_obj=None):
         for x in (work, tmpd):
             os.mkdir(x)
         if repo_obj is None:
-            own = repo_obj = Repo(versions, rfault, algo)
-        repo = repo_obj.dir
+            own = repo_obj = Repo(versions, rfault, algo, layout)
+        url = repo_obj.url(transport)
         local = os.path.join(work, "local")
         if start != "absent":
             content = "zzz\n" if start == "foreign" else "".join(versions[start])
             with open(local, "w", encoding="utf-8") as f:
                 f.write(content)
-        before = open(local, encoding="utf-8").read() if start != "absent" else None
+        before = read_local(local) if start != "absent" else None
 
         def fopen(name, mode="r", *a, **k):
             if "w" in mode or "a" in mode or "+" in mode:
@@ -222,7 +327,7 @@ def execute(versions, start, rfault, fsfail, algo="SHA1", repo_obj=None):
         ds.os = OsProxy(env)
         try:
             try:
-                r = ds.update_file("file://" + os.path.join(repo, "Packages"), local)
+                r = call_entry(ds, entry, url, local)
                 exc = None
             except Exception as e:
                 r, exc = None, e
@@ -230,23 +335,25 @@ def execute(versions, start, rfault, fsfail, algo="SHA1", repo_obj=None):
             del ds.open
             ds.os = os
             tempfile.tempdir = old_tmp
-        after = open(local, encoding="utf-8").read() if os.path.exists(local) else None
+        after = read_local(local) if os.path.exists(local) else None
         res = {"exc": exc, "result": r, "before": before, "after": after,
                "leftovers": sorted(os.listdir(work)), "tmp_leftovers": sorted(os.listdir(tmpd)), "env": env}
-        if exc is not None and env.fired and rfault is None:
+        if (exc is not None and env.fired and rfault is None) or (again and exc is None):
             # the fault was transient: the same call again, on the same directory, without any fault
+            # (again: a second call after a successful one - the local file is current now and has to stay as it is)
             tempfile.tempdir = tmpd
             try:
                 try:
-                    r2 = ds.update_file("file://" + os.path.join(repo, "Packages"), local)
+                    r2 = call_entry(ds, entry, url, local)
                     exc2 = None
                 except Exception as e:
                     r2, exc2 = None, e
             finally:
                 tempfile.tempdir = old_tmp
-            after2 = open(local, encoding="utf-8").read() if os.path.exists(local) else None
-            res["retry"] = {"exc": exc2, "result": r2, "after": after2, "leftovers": sorted(os.listdir(work)),
-                            "tmp_leftovers": sorted(os.listdir(tmpd))}
+            after2 = read_local(local) if os.path.exists(local) else None
+            res["retry" if exc is not None else "again"] = {
+                "exc": exc2, "result": r2, "after": after2, "leftovers": sorted(os.listdir(work)),
+                "tmp_leftovers": sorted(os.listdir(tmpd))}
         return res
     finally:
         tempfile.tempdir = old_tmp
@@ -279,13 +386,19 @@ def scrub(text):
     return re.sub(r"tmp[A-Za-z0-9_]{6,10}", "tmp<random>", text)
 
 
-def judge(versions, start, rfault, fsfail, res):
+def judge(versions, start, rfault, fsfail, res, entry="update_file"):
     """-> list of (sig, expected, observed)"""
-    return [(s_, scrub(e_), scrub(o_)) for s_, e_, o_ in _judge(versions, start, rfault, fsfail, res)]
+    return [(s_, scrub(e_), scrub(o_)) for s_, e_, o_ in _judge(versions, start, rfault, fsfail, res, entry)]
 
 
-def _judge(versions, start, rfault, fsfail, res):
+UNUSABLE_INDEX = (("noidx",), ("idx-unparsable",), ("idx-unparsable-tail",))
+
+
+def _judge(versions, start, rfault, fsfail, res, entry="update_file"):
     cur = versions[-1]
+    download = entry in ("download_file", "downloadFile")
+    if download:
+        assert rfault in (None, ("nofull",)), rfault
     exc, env = res["exc"], res["env"]
     bad = []
     fname = rfault[0] if rfault else "none"
@@ -308,7 +421,7 @@ def _judge(versions, start, rfault, fsfail, res):
     if bad:
         return bad
     # liveness / must-raise
-    path = path_taken(versions, start, rfault)
+    path = "full" if download else path_taken(versions, start, rfault)
     fired = bool(env.fired)
     semantically_short = rfault in (("idx-nocurrent",), ("idx-nopatches",), ("idx-nohistory",))
     must_converge = (not fired) and (
@@ -330,6 +443,16 @@ def _judge(versions, start, rfault, fsfail, res):
     if must_raise and exc is None:
         bad.append(("update/error-swallowed/" + ftag, "an error (fault fired: %r, path %r)" % (env.fired, path),
                     "returned normally"))
+    ag = res.get("again")
+    if ag is not None and not bad and (rfault is None or rfault in UNUSABLE_INDEX):
+        # a second call after a successful one: the local file is current, stays current, nothing is left behind
+        if ag["exc"] is not None:
+            bad.append(("update/second-call/raises/" + ftag, "the second call returns the current content",
+                        "%s: %s" % (type(ag["exc"]).__name__, ag["exc"])))
+        elif ag["result"] != cur or ag["after"] != "".join(cur):
+            bad.append(("update/second-call/wrong-content/" + ftag, cur, (ag["result"], ag["after"])))
+        elif ag["leftovers"] != ["local"] or ag["tmp_leftovers"]:
+            bad.append(("update/second-call/leftovers/" + ftag, ["local"], (ag["leftovers"], len(ag["tmp_leftovers"]))))
     rt = res.get("retry")
     if rt is not None and not bad:
         if rt["exc"] is not None:
@@ -342,13 +465,22 @@ def _judge(versions, start, rfault, fsfail, res):
     return bad
 
 
+def route_tag(case):
+    """'' for the plain route, else 'via-<what differs>/'"""
+    parts = [case[k] for k, dflt in (("entry", "update_file"), ("layout", "plain"), ("transport", "file")) if case.get(k, dflt) != dflt]
+    return "via-%s/" % "+".join(parts) if parts else ""
+
+
 def run_case(case, repo_obj=None):
     versions = [list(v) for v in case["versions"]]
     rf = tuple(case["rfault"]) if case["rfault"] else None
     fs = [tuple(x) for x in case["fsfail"]]
-    res = execute(versions, case["start"], rf, fs, case.get("algo", "SHA1"), repo_obj)
+    entry = case.get("entry", "update_file")
+    res = execute(versions, case["start"], rf, fs, case.get("algo", "SHA1"), repo_obj, entry, case.get("layout", "plain"),
+                  case.get("transport", "file"), case.get("again", False))
     # an injected fault the run never reached is simply a fault-free run; judge() handles it via env.fired
-    return judge(versions, case["start"], rf, fs, res), res
+    tag = route_tag(case)
+    return [(tag + sig, e, o) for sig, e, o in judge(versions, case["start"], rf, fs, res, entry)], res
 
 
 # ---------------------------------------------------------------- units
@@ -371,11 +503,8 @@ def all_lists(maxlen, seed):
     return [list(t) for n in range(0, maxlen + 1) for t in itertools.product(L, repeat=n)]
 
 
-def histories(tier, seed):
-    l2 = all_lists(2, seed)
-    out = [[a, b] for a in l2 for b in l2 if a != b]
-    core7 = l2[:7]
-    out += [[a, b, c] for a in core7 for b in core7 for c in core7 if a != b and b != c]
+def special_histories(seed):
+    out = []
     # one long file (two-digit ed addresses): edits at lines 9-12 and at the top
     L = [LINESET(seed)[0].replace("\n", "%d\n" % i) for i in range(1, 13)]
     out.append([L, L[:8] + ["x\n"] + L[9:], L[:8] + ["x\n"] + L[9:11], ["y\n"] + L[:8] + ["x\n"] + L[9:11]])
@@ -389,6 +518,15 @@ def histories(tier, seed):
     out += [[[D[4]], [D[0], D[4]], [D[0], "y\n", D[4]]],
             [[D[4]], [D[4], D[1], "y\n"], [D[2], D[4], D[1], "y\n"]],
             [["y\n", D[4]], ["y\n", D[3], D[0], D[4]], ["y\n", D[3], D[0], "w\n"]]]
+    return out
+
+
+def histories(tier, seed):
+    l2 = all_lists(2, seed)
+    out = [[a, b] for a in l2 for b in l2 if a != b]
+    core7 = l2[:7]
+    out += [[a, b, c] for a in core7 for b in core7 for c in core7 if a != b and b != c]
+    out += special_histories(seed)
     core3 = l2[:3]
     out += [[a, b, c, e] for a in core3 for b in core3 for c in core3 for e in core3
             if a != b and b != c and c != e]
@@ -404,10 +542,94 @@ def histories(tier, seed):
     return out
 
 
+def route_histories(tier, seed):
+    """histories of the routes family: every 2- and 3-version history over the first three line lists, the long file,
+    the line-separator and terminator look-alike histories (thorough: also every 2-version history over the first seven
+    lists and the 4-version ones over the first three)"""
+    l2 = all_lists(2, seed)
+    core3 = l2[:3]
+    out = [[a, b] for a in core3 for b in core3 if a != b]
+    out += special_histories(seed)
+    out += [[a, b, c] for a in core3 for b in core3 for c in core3 if a != b and b != c]
+    if tier != "quick":
+        core7 = l2[:7]
+        out += [[a, b] for a in core7 for b in core7 if a != b and not (a in core3 and b in core3)]
+        out += [[a, b, c, e] for a in core3 for b in core3 for c in core3 for e in core3 if a != b and b != c and c != e]
+    return out
+
+
+HTTP_HISTORIES = {"quick": 13, "thorough": 10 ** 6}     # the first k route histories (quick: the 2-version and the special
+                                                        # ones) also go over HTTP
+
+
 def units(tier, seed):
     hs = histories(tier, seed)
     step = 8
-    return [{"lo": i, "hi": min(i + step, len(hs))} for i in range(0, len(hs), step)]
+    out = [{"lo": i, "hi": min(i + step, len(hs))} for i in range(0, len(hs), step)]
+    out += [{"kind": "routes", "h": i} for i in range(len(route_histories(tier, seed)))]
+    return out
+
+
+def unit_cost(u, tier):
+    return 5 if u.get("kind") == "routes" else 8
+
+
+def route_plan(versions, hi, tier):
+    """-> [(route settings, repository faults, start states, inject file-system faults?)] for one history"""
+    n = len(versions)
+    starts = list(range(n)) + ["foreign", "absent"]
+    plan = []
+    for entry in ("verbose", "alias"):
+        plan.append(({"entry": entry}, [None] + repo_faults(n), starts, True))
+    for layout in LAYOUTS[1:]:
+        plan.append(({"layout": layout}, [None, ("wrongcurrent",), ("garble", 0), ("idx-unparsable-tail",)], starts, False))
+    for entry in ("download_file", "downloadFile"):
+        plan.append(({"entry": entry}, [None, ("nofull",)], [0, "foreign", "absent"], True))
+    if hi < HTTP_HISTORIES[tier]:
+        plan.append(({"transport": "http"}, [None, ("noidx",), ("nofull",)], starts, False))
+    return plan
+
+
+def run_route_unit(u, tier, seed):
+    part = core.Part()
+    versions = route_histories(tier, seed)[u["h"]]
+    for algo in algos():
+        for settings, rfaults, starts, fsfaults in route_plan(versions, u["h"], tier):
+            tag = route_tag(settings)
+            for rf in rfaults:
+                repo_obj = Repo(versions, rf, algo, settings.get("layout", "plain"))
+                try:
+                    for start in starts:
+                        base = dict(settings, versions=versions, start=start, algo=algo, rfault=rf,
+                                    again=rf is None or rf in UNUSABLE_INDEX)
+                        case = dict(base, fsfail=[])
+                        bad, res = run_case(case, repo_obj)
+                        part.evaluations += 1
+                        part.traces += 2 if "again" in res else 1
+                        part.states += 1
+                        for sig, exp, obs in bad:
+                            part.violation(sig, case, exp, obs, rank=len(versions) * 10 + (0 if rf is None else 1) + 5)
+                        part.outcomes["%s%s/%s" % (tag, rf[0] if rf else "none", type(res["exc"]).__name__ if res["exc"] else "ok")] += 1
+                        part.nontrivial += 1
+                        if rf is not None or not fsfaults:
+                            continue
+                        for pt in list(res["env"].log):
+                            c2 = dict(base, fsfail=[pt], again=False)
+                            bad2, res2 = run_case(c2, repo_obj)
+                            part.evaluations += 1
+                            part.traces += 2 if "retry" in res2 else 1
+                            part.transitions += 1
+                            for sig, exp, obs in bad2:
+                                part.violation(sig, c2, exp, obs, rank=len(versions) * 10 + 7)
+                            if not res2["env"].fired:
+                                raise AssertionError("fault point %r discovered by the dry run was not reached: %r" % (pt, c2))
+                            part.nontrivial += 1
+                            part.outcomes["%sfs:%s/%s" % (tag, pt[0], type(res2["exc"]).__name__ if res2["exc"] else "ok")] += 1
+                finally:
+                    repo_obj.close()
+    part.transitions += part.states
+    part.sample(case)
+    return part
 
 
 def algos():
@@ -422,6 +644,8 @@ def algos():
 
 
 def run_unit(u, tier, seed):
+    if u.get("kind") == "routes":
+        return run_route_unit(u, tier, seed)
     part = core.Part()
     hs = histories(tier, seed)[u["lo"]:u["hi"]]
     bound = 1 if tier == "quick" else 2
